@@ -12,7 +12,7 @@ for sid in ids:
     meta = json.load(open(os.path.join(d, 'meta.json')))
     prop = meta['breaks_property']
     t0 = time.time()
-    r = subprocess.run([os.path.join(V, 'tools', 'seedeval.py'), d, '--checks', prop], capture_output=True, text=True)
+    r = subprocess.run(['/venv/bin/python', os.path.join(V, 'tools', 'seedeval.py'), d, '--checks', prop], capture_output=True, text=True)
     try:
         ev = json.load(open(os.path.join(d, 'eval.json')))
     except Exception as e:
